@@ -23,6 +23,7 @@ import (
 	"testing"
 	"time"
 
+	"github.com/MixinNetwork/mixin/common"
 	"github.com/MixinNetwork/mixin/crypto"
 	"github.com/MixinNetwork/mixin/kernel/internal/clock"
 	"github.com/MixinNetwork/mixin/p2p"
@@ -63,6 +64,7 @@ type vpC12Verifier struct {
 	handed   map[crypto.Key]map[crypto.Hash]bool // commitment -> snapshots it was handed out for
 	bound    map[crypto.Hash]crypto.Key          // snapshot -> commitment handed out last for it
 	answered map[crypto.Key]*vpC12Answer         // commitment -> the one challenge its nonce answered
+	abandoned map[crypto.Hash]bool               // snapshots given up after a refused challenge
 }
 
 func vpC12NewVerifier(t *rapid.T) *vpC12Verifier {
@@ -71,6 +73,7 @@ func vpC12NewVerifier(t *rapid.T) *vpC12Verifier {
 		object:   map[crypto.Key]*crypto.CosiNonce{},
 		handed:   map[crypto.Key]map[crypto.Hash]bool{},
 		bound:    map[crypto.Hash]crypto.Key{},
+		abandoned: map[crypto.Hash]bool{},
 		answered: map[crypto.Key]*vpC12Answer{},
 	}
 	n := rapid.IntRange(2, 7).Draw(t, "keys")
@@ -129,8 +132,8 @@ func (v *vpC12Verifier) challenge(c crypto.Key, variant int) *crypto.CosiSignatu
 }
 
 func TestVP_C12_kernel_verifier(t *testing.T) {
-	c := kit.New(t, "C12", "rapid state machine over a bare verifier-side Chain (maps as buildChain leaves them / nil): 6..45 operations drawn from: pre-commit 1..4 nonces (the production loop with seeded nonces), full-challenge lookup cosiRetrieveRandom(snapshot, commitment) with the snapshot drawn from 6 hashes and the commitment from everything ever pre-committed (available, consumed, superseded) or unknown, and answer: the real nonce.Response through a handle obtained from the lookup with a challenge for that snapshot (two leader commitments per snapshot = two different challenges); oracle: per commitment the set of snapshots it was handed out for has size <= 1, a handed-out nonce is the pre-committed object and its Public() is the requested commitment, a repeated (snapshot, commitment) lookup returns the identical object, a consumed commitment under another snapshot and an unknown commitment return nil, and through handed-out nonces a second, different challenge is refused with ErrCosiNonceReuse while the same challenge returns the identical (verifying) response; non-trivial = history in which a consumed commitment was requested again for another snapshot; distinct by operation trace")
-	c.Require("handed-out", "repeat-same-object", "consumed-other-snapshot", "unknown-commitment", "superseded-request", "response-first", "response-repeat", "response-other-challenge-refused", "maps-nil")
+	c := kit.New(t, "C12", "rapid state machine over a bare verifier-side Chain (maps as buildChain leaves them / nil): 6..45 operations drawn from: pre-commit 1..4 nonces (the production loop with seeded nonces), full-challenge lookup cosiRetrieveRandom(snapshot, commitment) with the snapshot drawn from 6 hashes and the commitment from everything ever pre-committed (available, consumed, superseded) or unknown, and answer: the real nonce.Response through a handle obtained from the lookup with a challenge for that snapshot (two leader commitments per snapshot = two different challenges); oracle: per commitment the set of snapshots it was handed out for has size <= 1, a handed-out nonce is the pre-committed object and its Public() is the requested commitment, a repeated (snapshot, commitment) lookup returns the identical object, a consumed commitment under another snapshot and an unknown commitment return nil, and through handed-out nonces a second, different challenge is refused with ErrCosiNonceReuse while the same challenge returns the identical (verifying) response; after a refusal the snapshot is given up with abandonCosiSnapshot as cosiHandleChallenge does, and later repeats of the answered (snapshot, commitment) pair must still find the same nonce; non-trivial = history in which a consumed commitment was requested again for another snapshot; distinct by operation trace")
+	c.Require("handed-out", "repeat-same-object", "consumed-other-snapshot", "unknown-commitment", "superseded-request", "response-first", "response-repeat", "response-other-challenge-refused", "abandoned-after-refusal", "repeat-after-abandon", "maps-nil")
 	kit.SetChecks(kit.N(300, 12000))
 	rapid.Check(t, func(t *rapid.T) {
 		v := vpC12NewVerifier(t)
@@ -211,6 +214,9 @@ func TestVP_C12_kernel_verifier(t *testing.T) {
 				}
 				if repeat {
 					classes = append(classes, "repeat-same-object")
+					if v.abandoned[s] {
+						classes = append(classes, "repeat-after-abandon")
+					}
 				} else {
 					classes = append(classes, "handed-out")
 				}
@@ -245,6 +251,13 @@ func TestVP_C12_kernel_verifier(t *testing.T) {
 						t.Fatalf("nonce %s answered challenge %s and then a second, different challenge %s (err=%v)", cm, first.challenge, id, err)
 					}
 					classes = append(classes, "response-other-challenge-refused")
+					// what cosiHandleChallenge does next: it gives the snapshot up. The
+					// binding of the snapshot to its nonce has to outlive that, or the
+					// leader repeating the challenge that WAS answered finds no nonce.
+					v.chain.abandonCosiSnapshot(&common.Snapshot{Hash: s, NodeId: v.peer, Transactions: []crypto.Hash{s}})
+					v.abandoned[s] = true
+					classes = append(classes, "abandoned-after-refusal")
+					trace += "X"
 				}
 			default:
 				// a consumed commitment is asked for again under a fresh snapshot
